@@ -496,6 +496,10 @@ class SymVal(object):
             # the first / last element of a container, named as the element it is
             base = self.keys.key(c[2])
             return mk(('elem', base, {} if c[1] == 'front' else {'%s.size()' % base: 1, '': -1}))
+        if c and c[0] == 'method' and c[2] is not None and not args and c[1] == 'data' and \
+                re.search(r'\b(vector|array|basic_string)<', (dtype(c[2]) or '') + (qtype(c[2]) or '')):
+            # the address of the first element of a contiguous container
+            return mk(('ptr', self.keys.key(c[2]), {}))
         for a in args:
             self.ev(a, st)
         if c and c[0] == 'method' and c[2] is not None:
